@@ -74,7 +74,12 @@ fn type_directed_args(t: &mut Tape, params: &BTreeMap<String, Type>, known: &Arg
             Type::Bool => ArgValue::Bool(t.chance(1, 2)),
             Type::Bytes => ArgValue::Bytes(vec![0x33; *t.pick(&[28usize, 4, 32])]),
             Type::Address => ArgValue::Address(addr_for(t.index(3), false, false)),
-            Type::UtxoRef => ArgValue::UtxoRef(unrk(&(vec![0xEE; 32], t.draw(3) as u32))),
+            // a reference may name a UTxO that an input block of the same transaction is handed
+            // (input UTxOs below are (0x40 + block, index))
+            Type::UtxoRef => match t.draw(4) {
+                3 => ArgValue::UtxoRef(unrk(&(vec![0x40 + t.draw(2) as u8; 32], t.draw(2) as u32))),
+                _ => ArgValue::UtxoRef(unrk(&(vec![0xEE; 32], t.draw(3) as u32))),
+            },
             _ => continue,
         };
         out.insert(k.clone(), v);
